@@ -381,18 +381,18 @@ type vbFinding struct {
 }
 
 type vbResult struct {
-	Mode     string            `json:"mode"`
-	Inputs   int64             `json:"inputs"`
-	Calls    int64             `json:"calls"`
-	Skipped  int64             `json:"skipped_huge_declared_size"`
-	Findings []vbFinding       `json:"findings"`
-	PerEP    map[string]int64  `json:"calls_per_entry_point"`
-	Outcomes map[string]int64  `json:"outcome_classes"`
-	Samples  []string          `json:"samples"`
-	Nontrivial int64           `json:"nontrivial"`
-	Slow     []string          `json:"slow_calls"`
-	TimeNS   map[string]int64  `json:"time_ns_per_entry_point"`
-	seen     map[string]bool
+	Mode       string           `json:"mode"`
+	Inputs     int64            `json:"inputs"`
+	Calls      int64            `json:"calls"`
+	Skipped    int64            `json:"skipped_huge_declared_size"`
+	Findings   []vbFinding      `json:"findings"`
+	PerEP      map[string]int64 `json:"calls_per_entry_point"`
+	Outcomes   map[string]int64 `json:"outcome_classes"`
+	Samples    []string         `json:"samples"`
+	Nontrivial int64            `json:"nontrivial"`
+	Slow       []string         `json:"slow_calls"`
+	TimeNS     map[string]int64 `json:"time_ns_per_entry_point"`
+	seen       map[string]bool
 }
 
 func vbPanicSite(stack string) string {
